@@ -149,7 +149,11 @@ def freeze(v, depth=0):
         return ("s", repr(v))
     if hasattr(v, "get_params"):
         try:
-            return ("est", type(v).__name__, freeze(v.get_params(deep=True), depth + 1))
+            # an estimator-valued hyper-parameter: its own parameters and WHETHER it carries
+            # fitted state (the names of its fitted attributes) - fit must work on a clone,
+            # not fit the caller's object
+            fitted = tuple(sorted(k for k in vars(v) if k.endswith("_") and not k.startswith("_")))
+            return ("est", type(v).__name__, freeze(v.get_params(deep=True), depth + 1), fitted)
         except Exception:  # noqa: BLE001
             return ("est", type(v).__name__)
     if callable(v):
@@ -357,10 +361,14 @@ class PurityWorld:
         for k in sorted(set(before) | set(now)):
             if before.get(k) != now.get(k):
                 pv = ctor_state(obj).get(k)
+                extra = ""
+                b4, nw = before.get(k), now.get(k)
+                if isinstance(b4, tuple) and isinstance(nw, tuple) and b4[:1] == ("est",) and nw[:1] == ("est",) and b4[:3] == nw[:3]:
+                    extra = f" - the caller's estimator object was fitted in place (fitted attributes {list(b4[3])} -> {list(nw[3])}) instead of a clone"
                 self.violate(
                     "hyperparameter_changed",
                     m["kind"],
-                    f"{what}: constructor parameter '{k}' changed from {_brief(m['params0_raw'].get(k))} to {_brief(pv)}",
+                    f"{what}: constructor parameter '{k}' changed from {_brief(m['params0_raw'].get(k))} to {_brief(pv)}{extra}",
                     param=k,
                     before_form=type(m["params0_raw"].get(k)).__name__,
                     after_form=type(pv).__name__,
